@@ -45,6 +45,8 @@ class Env:
         self.phase = 'construction'
         self.trace: List[str] = []
         self.call_stack: List[str] = []
+        self.proc: Any = None
+        self.injected_after_termination = False
 
     def fault(self, site: str, position: str) -> None:
         key = (site, position)
@@ -53,16 +55,17 @@ class Env:
         if self.plan is not None and self.plan == (site, n, position):
             self.injected = InjectedFault(f'{site}#{n}:{position}')
             self.injected_during = self.phase
+            self.injected_after_termination = self.proc is not None and self.proc.has_terminated()
             raise self.injected
 
 
 ENV: Env = Env(None)
 
 
-def _hook(name: str) -> Callable[..., Any]:
+def _hook(name: str, owner: List[type]) -> Callable[..., Any]:
     def hook(self: Any, *args: Any, **kwargs: Any) -> Any:
         ENV.fault(name, 'before')
-        result = getattr(super(FaultProc, self), name)(*args, **kwargs)
+        result = getattr(super(owner[0], self), name)(*args, **kwargs)
         ENV.fault(name, 'after')
         return result
 
@@ -127,7 +130,69 @@ class FaultProc(plumpy.Process):
 
 
 for _name in LIFECYCLE + PAUSE_PLAY + OUTPUT:
-    setattr(FaultProc, _name, _hook(_name))
+    setattr(FaultProc, _name, _hook(_name, [FaultProc]))
+
+
+class FaultChain(plumpy.WorkChain):
+    """The same fault sites on a work chain: outline steps and predicates are user code too."""
+
+    @classmethod
+    def define(cls, spec: Any) -> None:
+        super().define(spec)
+        spec.output('o', required=False)
+        spec.outline(cls.s0, plumpy.if_(cls.p0)(cls.s1).else_(cls.s2), plumpy.while_(cls.p1)(cls.s3), cls.s4)
+
+    @classmethod
+    def get_state_classes(cls) -> Dict[Any, type]:
+        classes = super().get_state_classes()
+        return {label: _state_class(c, label.value) for label, c in classes.items()}
+
+    def init(self) -> None:
+        ENV.fault('init', 'before')
+        super().init()
+        ENV.fault('init', 'after')
+
+    def s0(self) -> None:
+        ENV.fault('step:s0', 'before')
+        ENV.trace.append('s0')
+        self.ctx.n = 0
+        self.out('o', 1)
+        self.call_soon(self.callback)
+
+    def callback(self) -> None:
+        ENV.fault('callback', 'before')
+        ENV.trace.append('callback')
+
+    def p0(self) -> bool:
+        ENV.fault('pred:p0', 'before')
+        return True
+
+    def s1(self) -> None:
+        ENV.fault('step:s1', 'before')
+        ENV.trace.append('s1')
+
+    def s2(self) -> None:
+        ENV.trace.append('s2')
+
+    def p1(self) -> bool:
+        ENV.fault('pred:p1', 'before')
+        return self.ctx.n < 1
+
+    def s3(self) -> None:
+        ENV.fault('step:s3', 'before')
+        ENV.trace.append('s3')
+        self.ctx.n += 1
+
+    def s4(self) -> Any:
+        ENV.fault('step:s4', 'before')
+        ENV.trace.append('s4')
+        return None
+
+
+for _name in LIFECYCLE + PAUSE_PLAY + OUTPUT:
+    setattr(FaultChain, _name, _hook(_name, [FaultChain]))
+
+PROGRAMS = {'process': FaultProc, 'workchain': FaultChain}
 
 
 class FaultListener(plumpy.ProcessListener):
@@ -182,9 +247,10 @@ for _t1 in range(0, N_TICKS + 1):
 class Run:
     """One (possibly faulted) execution of a scenario."""
 
-    def __init__(self, scenario: str, plan: Optional[Tuple[str, int, str]]) -> None:
+    def __init__(self, scenario: str, plan: Optional[Tuple[str, int, str]], program: str = 'process') -> None:
         self.scenario = scenario
         self.plan = plan
+        self.program = program
         self.constructor_exc: Optional[BaseException] = None
         self.call_results: List[Tuple[str, Any, Optional[BaseException]]] = []
         self.proc: Any = None
@@ -214,11 +280,12 @@ class Run:
         loop.install()
         try:
             try:
-                self.proc = proc = FaultProc(pid='c03', loop=loop)
+                self.proc = proc = PROGRAMS[self.program](pid='c03', loop=loop)
             except Exception as exc:  # noqa: BLE001
                 self.constructor_exc = exc
                 return
             ENV.phase = 'run'
+            ENV.proc = proc
             self.listener = FaultListener()
             proc.add_process_listener(self.listener)
             self.task = loop.create_task(proc.step_until_terminated())
@@ -321,9 +388,12 @@ def judge(scenario: str, plan: Tuple[str, int, str], run: Run, twin: Run) -> Lis
 
     def violate(clause: str, detail: Any = None, **feats: Any) -> None:
         f = {'site': site, 'position': position, 'scenario': scenario}
+        if run.program != 'process':
+            f['program'] = run.program
         f.update(feats)
         out.append({'clause': clause, 'features': f, 'detail': detail,
-                    'case': {'scenario': scenario, 'site': site, 'occurrence': occurrence, 'position': position}})
+                    'case': {'scenario': scenario, 'site': site, 'occurrence': occurrence, 'position': position,
+                             'program': run.program}})
 
     fault = ENV.injected
     if fault is None:
@@ -375,6 +445,11 @@ def judge(scenario: str, plan: Tuple[str, int, str], run: Run, twin: Run) -> Lis
         elif obs['task'] != 'returned':
             violate('pause-play:stepping-did-not-return', repr(obs['task']), kind=kind)
         return out
+    if site == 'callback' and ENV.injected_after_termination:
+        # a late callback: the process had already terminated, nothing may change any more (this is C01's business)
+        if obs['state'] != twin.obs['state'] or obs['future'][0] != twin.obs['future'][0] or loop_errors:
+            violate('late-callback-changes-terminated-process', {'faulted': str(obs['state']), 'twin': str(twin.obs['state'])}, kind=kind)
+        return out
     # any other user code: EXCEPTED with exactly that exception, closed, future raising it, stepping returned, loop clean
     if obs['state'] != PS.EXCEPTED:
         violate('not-excepted', {'state': str(obs['state']), 'task': repr(obs['task'])}, kind=kind, end=str(obs['state']))
@@ -391,34 +466,35 @@ def judge(scenario: str, plan: Tuple[str, int, str], run: Run, twin: Run) -> Lis
     return out
 
 
-def census(scenario: str) -> Tuple[Run, Dict[Tuple[str, str], int]]:
-    twin = Run(scenario, None)
+def census(scenario: str, program: str = 'process') -> Tuple[Run, Dict[Tuple[str, str], int]]:
+    twin = Run(scenario, None, program)
     twin.execute()
     return twin, dict(ENV.counts)
 
 
-def check_scenario(scenario: str) -> Dict[str, Any]:
+def check_scenario(job: Any) -> Dict[str, Any]:
+    scenario, program = job if isinstance(job, tuple) else (job, 'process')
     res: Dict[str, Any] = {'n': 0, 'violations': [], 'reached': 0, 'sites': set()}
-    twin, counts = census(scenario)
+    twin, counts = census(scenario, program)
     if twin.obs.get('state') not in (PS.FINISHED, PS.KILLED) or twin.obs.get('contexts'):
         res['violations'].append({'clause': 'census-run-unclean', 'features': {'scenario': scenario},
                                   'detail': repr(twin.obs)[:500], 'case': {'scenario': scenario}})
         return res
     # a fault can make later sites reachable (e.g. on_except); one extra census with a step failure finds those
-    extra = Run(scenario, ('step:last', 1, 'before'))
+    extra = Run(scenario, ('step:last' if program == 'process' else 'step:s4', 1, 'before'), program)
     extra.execute()
     for key, n in ENV.counts.items():
         counts[key] = max(counts.get(key, 0), n)
     for (site, position), n in sorted(counts.items()):
         for occurrence in range(1, n + 1):
             plan = (site, occurrence, position)
-            run = Run(scenario, plan)
+            run = Run(scenario, plan, program)
             try:
                 with explore.watchdog(2 * explore.WATCHDOG_S):
                     run.execute()
             except explore.Hang as hang:
                 res['violations'].append({'clause': 'hang', 'features': {'site': site, 'position': position, 'scenario': scenario},
-                                          'detail': str(hang), 'case': {'scenario': scenario, 'site': site, 'occurrence': occurrence, 'position': position}})
+                                          'detail': str(hang), 'case': {'scenario': scenario, 'site': site, 'occurrence': occurrence, 'position': position, 'program': program}})
                 continue
             res['n'] += 1
             if ENV.injected is not None:
@@ -434,7 +510,8 @@ def run_check(tier: str, seed: int, workers: Any) -> Dict[str, Any]:
     names = names[k:] + names[:k]
     total: Dict[str, Any] = {'n': 0, 'violations': [], 'reached': 0, 'sites': set()}
     with mp.get_context('fork').Pool(min(len(names), workers or os.cpu_count() or 1)) as pool:
-        for res in pool.imap_unordered(check_scenario, names, chunksize=4):
+        jobs = [(n, prog) for n in names for prog in PROGRAMS]
+        for res in pool.imap_unordered(check_scenario, jobs, chunksize=4):
             total['n'] += res['n']
             total['reached'] += res['reached']
             total['sites'] |= res['sites']
@@ -463,9 +540,10 @@ def run_check(tier: str, seed: int, workers: Any) -> Dict[str, Any]:
 def replay(doc: Dict[str, Any]) -> List[dict]:
     case = doc['case']
     if 'site' not in case:
-        return check_scenario(case['scenario'])['violations']
-    twin, _ = census(case['scenario'])
+        return check_scenario((case['scenario'], case.get('program', 'process')))['violations']
+    program = case.get('program', 'process')
+    twin, _ = census(case['scenario'], program)
     plan = (case['site'], case['occurrence'], case['position'])
-    run = Run(case['scenario'], plan)
+    run = Run(case['scenario'], plan, program)
     run.execute()
     return judge(case['scenario'], plan, run, twin)
